@@ -42,7 +42,13 @@ RULE = ("cases = interception plans (0-8 entries per family built by truncating 
         "DIOCCHANGERULE buffers, `pfctl -s all` listing, anchor contents), then a second session whose ports are a "
         "decimal prefix of / equal to / unrelated to the first's is set up and only the anchors the main ruleset "
         "really calls are judged against its plan. Per plan every cell of the address x port arrangement is decided by the oracle. "
-        "Verbosity is a dimension of every case (direct, via firewall.main, via the client, stale-session, "
+        "Every cell is judged for both origins: locally generated (nat/mangle OUTPUT, nft chains registered at "
+        "hook output, pf pass-out) and forwarded (PREROUTING, nft chains registered at hook prerouting); the nft "
+        "fake parses `add chain ... { type nat hook <h> priority <p>; }` and traverses the base chains by the hook "
+        "they were registered at (by priority), not by their names. The Lean model of nft identifies the two "
+        "paths by the chain names output/prerouting; that each of them is declared at the hook of its name is a "
+        "regenerated parameter pinned by C03_params_nft_hooks, and the hook attachment itself is judged by the "
+        "oracle. Verbosity is a dimension of every case (direct, via firewall.main, via the client, stale-session, "
         "pf-history, single odd calls): sshuttle.helpers.verbose is set to a level from the rotation "
         "[0,0,3,0,2,0,3,1] indexed by a per-run case counter shifted by the seed (not drawn from the PRNG, so the "
         "plans are the same at every level), stderr/stdout are captured around every call into the real code, "
@@ -654,7 +660,7 @@ def load_netfilter(cmds):
             if action == 'add table':
                 tables.setdefault(sp, {})
             elif action == 'add chain':
-                tables[sp].setdefault(toks[0], [])
+                nft_add_chain(tables[sp], toks)
             elif action == 'flush chain':
                 tables[sp][toks[0]] = []
             elif action == 'add rule':
@@ -662,6 +668,43 @@ def load_netfilter(cmds):
             else:
                 raise Unparsable('nft action %r' % action)
     return tables
+
+
+NFT_NAT_HOOKS = ('prerouting', 'input', 'output', 'postrouting')
+
+
+def parse_nft_chain_decl(toks):
+    """`{ type nat hook <h> priority <p>; policy accept; }` -> (type, hook, priority); None for a regular chain."""
+    if not toks:
+        return None
+    text = ' '.join(toks)
+    m = re.fullmatch(r'\{\s*type\s+(\w+)\s+hook\s+(\w+)\s+priority\s+(-?\d+)\s*;\s*(?:policy\s+(\w+)\s*;\s*)?\}', text)
+    if not m:
+        raise Unparsable('nft chain declaration %r' % text)
+    typ, hook, prio, policy = m.group(1), m.group(2), int(m.group(3)), m.group(4)
+    if typ != 'nat' or hook not in NFT_NAT_HOOKS:
+        raise Unparsable('nft base chain of type %r at hook %r' % (typ, hook))
+    if policy not in (None, 'accept'):
+        raise Unparsable('nft base chain policy %r' % policy)
+    return (typ, hook, prio)
+
+
+def nft_add_chain(table, toks):
+    """`add chain` is idempotent: an existing chain keeps its rules and its hook."""
+    name = toks[0]
+    decl = parse_nft_chain_decl(toks[1:])
+    if name not in table:
+        table[name] = []
+        if decl is not None:
+            table.setdefault('__hooks__', {})[name] = decl
+
+
+def nft_base_chains(table, hook):
+    """The base chains of `table` the kernel traverses at netfilter hook `hook`, by priority: what counts is
+    the hook a chain was REGISTERED at, not what the chain is called."""
+    hooks = table.get('__hooks__', {})
+    names = [n for n, (typ, h, prio) in hooks.items() if h == hook and n in table]
+    return sorted(names, key=lambda n: hooks[n][2])
 
 
 def parse_nft_rule(toks):
@@ -846,9 +889,12 @@ def verdict_real(method, loaded, plan, k):
             t = loaded.get(('nft', name))
             if t is None:
                 continue
-            res = walk_chain(t, 'output' if loc else 'prerouting', k, None)
-            if res[0] == 'divert':
-                return 'd%d' % res[1]
+            # a locally generated packet traverses the nat chains registered at the OUTPUT hook, a forwarded
+            # one those registered at the PREROUTING hook - whatever the chains are called
+            for base in nft_base_chains(t, 'output' if loc else 'prerouting'):
+                res = walk_chain(t, base, k, None)
+                if res[0] == 'divert':
+                    return 'd%d' % res[1]
         return 'u'
     if method in ('tproxy', 'tproxy-udp'):
         t = loaded.get(('ipt', fam, 'mangle'), {})
@@ -994,7 +1040,8 @@ def cells(plan, method, rng, budget):
         protos_full = ['tcp', 'udp'] if method == 'tproxy-udp' else ['tcp']
         for a, p in full:
             for pr in protos_full:
-                out.append((fam6, a, p, pr, 1, 0, owners[0][0], owners[0][1], 0))
+                out.append((fam6, a, p, pr, 1, 0, owners[0][0], owners[0][1], 0))      # locally generated
+                out.append((fam6, a, p, pr, 0, 0, owners[0][0], owners[0][1], 0))      # forwarded
         side = full if len(full) <= 80 else rng.sample(full, 80)
         for a, p in side:
             out.append((fam6, a, p, 'tcp', 0, 0, owners[0][0], owners[0][1], 0))
@@ -1116,7 +1163,7 @@ class KernelState(object):
         elif action == 'add chain':
             if sp not in self.tables:
                 return 1
-            self.tables[sp].setdefault(toks[0], [])
+            nft_add_chain(self.tables[sp], toks)
         elif action == 'flush chain':
             if toks[0] not in self.tables.get(sp, {}):
                 return 1
